@@ -163,6 +163,18 @@ CHECKS = {
         technique="TLC-enumerated scenarios replayed into the code + TLC trace validation",
         engine="tlc-gen+trace",
     ),
+    "C09": dict(
+        category="model_checking",
+        text="ProgramSpace vectors with queues of 2..3 codemods that touch the same file, the same line or the same manifest, in every "
+        "order, are run as one batch invocation and, on a restored copy, as a chain of single-codemod invocations on the evolving tree; "
+        "all traces are validated by Trace_Run (Run.tla: aggregates of a codemod come only from its own steps, report = BuildReport); "
+        "Compare events require equal final trees and equal per-codemod results (changesets, failures, dependency notice); thorough "
+        "adds the whole default selection against the chain of the same codemods.",
+        design_ref="DESIGN.md §5 C09",
+        note="Trusted: TLC, result normalisation. Enabling pairs outside the seed programs are not covered.",
+        technique="TLC trace validation of batch and chained real runs over a TLC-enumerated scenario space + differential comparison",
+        engine="tlc-gen+trace",
+    ),
 }
 
 NOT_APPLICABLE: list[dict] = []
